@@ -5,9 +5,9 @@ many orders of magnitude while every datum stays small.  This module builds such
 (n, m <= ~45), so the exact Fraction simplex (certificate re-validated) gives the truth for every one of them.
 
 Families (each is plain data made from a spec dict; `build(spec)` -> (c, A, b, minimize))
-  chain       multiplicative growth chain  x_1 <= b1, x_{k+1} - f x_k <= step (f in 2, 3, 4, 10; growth f^(K-1) = 16 .. 1e12;
+  chain       multiplicative growth chain  x_1 <= b1, x_{k+1} - f x_k <= step (f in 2, 3, 4, 5, 7, 10; growth f^(K-1) = 9 .. 1e12;
               b1, step in {0, 1}), zero, one or two side variables y_t <= cap_t with profit 1, 2, 3 or a small dyadic profit
-              (1/16, 1/128, 1/1024), objective on all chain variables / on the last one only (= one bounded, very long edge) /
+              (1/16, 1/1024, 1/8192), objective on all chain variables / on the last one only (= one bounded, very long edge) /
               on both ends / on the side variables only, chain weight 1 or 10, optionally a phase-1 row (sum(x) + sum(y) >= 1,
               sum(y) >= 1, x_K + sum(y) >= 1, or sum(x) >= 1 - the last is infeasible when the chain is pinned to 0), optionally
               without the first row (unbounded).  Optimal dual values reach f^K although |data| <= 10.
@@ -24,15 +24,23 @@ Transforms (spec["tf"], applied after the family generator, in this order)
   perm        rows and columns are permuted (seeded)
 Every base instance is run as generated AND with permuted rows / columns; the other transforms on a seeded share.
 
-Tag decided from the INPUT alone: `basis_growth(A)` is the largest product of coefficient ratios along a chain of rows each of
-which bounds one variable by multiples of others (a row with exactly one positive entry a_ij and negative entries a_ik gives
+Tag decided from the INPUT alone: `basis_growth(A)` is the largest product of coefficient ratios along a SIMPLE path of rows each
+of which bounds one variable by multiples of others (a row with exactly one positive entry a_ij and negative entries a_ik gives
 x_j <= sum (|a_ik| / a_ij) x_k + ..., i.e. arcs k -> j with gain |a_ik| / a_ij; a row with exactly one negative entry gives the
 lower-bound arcs the same way).  It is invariant under row / column permutation and row scaling, equals f^(K-1) on a growth
-chain and on its dual, and is <= 4^7 on the Klee-Minty cubes.  An LP with basis_growth >= 1e8 has an optimal (or visited) basis
-with entries >= 1e8 although its data are small: 'ill-conditioned by construction'.  The unchanged tree itself loses verdicts
-there (relative pivot tolerance of fix a67c837: a legitimate pivot 1 next to -f^(K-1) >= 1e9 in the entering column is discarded
--> UNBOUNDED; before that fix the same chains were exact but tall degenerate cones were not), so violations on such inputs are
-filed under the obligation name + ILL, exactly like the n+m >= 190 class; everything below 1e8 is judged normally.
+chain and on its dual, and is <= 4^7 on the Klee-Minty cubes.  `tableau_growth(c, A, b) = basis_growth(A) * max(1, max|c|, max|b|)`
+is the size the reduced costs / right-hand sides reach inside the tableau once the chain is basic.  An LP with tableau_growth >= 1e5
+is 'ill-conditioned by construction': every elimination leaves rounding noise of size growth * 2^-52 * (a few) in cells that are
+exactly zero, and that reaches the solver's absolute eps = 1e-10 from growth ~1e5 on.  The unchanged tree itself loses verdicts there
+(lowest seen: growth 1.68e5, INFEASIBLE for a feasible dual chain; 1.77e5, UNBOUNDED after pricing in a reduced cost of -1.16e-10;
+from 1e9 on the relative pivot tolerance of fix a67c837 discards the legitimate pivot 1 next to -f^(K-1) -> UNBOUNDED; no local
+tolerance cures all of it: triage/C03_round3.md), so violations on such inputs are filed under the obligation name + ILL, exactly
+like the n+m >= 190 class; everything below 1e5 is judged normally (0 violations of the unchanged tree on 121 000 non-dyadic chain LPs
+there).  Below the threshold a reduced-cost ratio of 1e9 inside one objective row (what a relative pricing / restoration tolerance
+needs to go wrong) is still reached through a proportionally smaller side cost: chain weight 10, side profit 2^-13, f = 2, K = 14.
+
+Tolerances on this family are relative to the size of the compared quantities (checks/C03.eval_simplex rel=True): solutions reach
+1e5 .. 1e12 from data <= 10, and growth * 2^-53 relative error is what double precision delivers.
 """
 from __future__ import annotations
 
